@@ -55,11 +55,11 @@ fn main() {
                 texts.push((format!("{:?}", c.class), c.text));
             }
             for (class, text) in texts {
-                let a = std::panic::catch_unwind(|| match peginator_codegen::Grammar::from_str(&text) {
+                let a = verif_core::util::catch(|| match peginator_codegen::Grammar::from_str(&text) {
                     Ok(g) => (true, format!("{:?}", g)),
                     Err(e) => (false, format!("{:?}", e)),
                 });
-                let b = std::panic::catch_unwind(|| match peginator_codegen_s2::Grammar::from_str(&text) {
+                let b = verif_core::util::catch(|| match peginator_codegen_s2::Grammar::from_str(&text) {
                     Ok(g) => (true, format!("{:?}", g)),
                     Err(e) => (false, format!("{:?}", e)),
                 });
